@@ -38,6 +38,7 @@ def gen(rng, prop, job):
 
 def make_jobs(prop, tier, seed):
     jobs = plug.std_jobs(prop, tier, seed, "m7", n_quick=16, per_quick=5, schedules=4)
+    jobs.extend(plug.line_jobs(prop, tier, seed))
     if tier == "thorough":
         for j in range(24):
             jobs.append({"kind": "pbound", "prop": prop, "seed": seed * 104729 + j, "k": 2, "budget": 1200})
